@@ -548,11 +548,11 @@ func (f *codecFam) execMsgRT(c M) M {
 }
 
 type compactCodec struct {
-	size     int
-	unBin    func([]byte) (int, error)
-	unBenc   func([]byte) (int, error)
-	bin      func() ([]byte, error)
-	benc     func() ([]byte, error)
+	size   int
+	unBin  func([]byte) (int, error)
+	unBenc func([]byte) (int, error)
+	bin    func() ([]byte, error)
+	benc   func() ([]byte, error)
 }
 
 func compactOf(ty string) compactCodec {
